@@ -621,7 +621,7 @@ func (s *appState) genesisOp(d *driver, f []string) (out string) {
 			return "res=err"
 		}
 		defer env2.Close()
-		s2 := &appState{env: env2, denomByHash: map[string]string{}}
+		s2 := &appState{env: env2, denomByHash: map[string]string{}, escrowSym: map[string]string{}}
 		return "res=ok st=" + s2.stateStr(env2.Ctx)
 	case "reimport":
 		// export -> validate -> wipe the module store -> init -> export, in place, through the AppModule
